@@ -134,7 +134,9 @@ class AnyOf(MultiFieldWrapper, Field, metaclass=_JSONSchemaDraft4ReuseMeta):
             raise TypeError("AnyOf definition must include at least one field option")
 
     def __set__(self, instance, value):
-        if getattr(instance, "_trust_supplied_values", False):
+        if getattr(instance, "_trust_supplied_values", False) or getattr(
+            instance, "_skip_validation", False
+        ):
             super().__set__(instance, value)
             return
         matched = False
@@ -186,6 +188,9 @@ class OneOf(MultiFieldWrapper, Field, metaclass=_JSONSchemaDraft4ReuseMeta):
         super().__init__(fields=fields)
 
     def __set__(self, instance, value):
+        if getattr(instance, "_skip_validation", False):
+            super().__set__(instance, value)
+            return
         matched = 0
         for field in self.get_fields():
             setattr(field, "_name", self._name)
@@ -238,6 +243,9 @@ class NotField(MultiFieldWrapper, Field, metaclass=_JSONSchemaDraft4ReuseMeta):
         super().__init__(fields=fields)
 
     def __set__(self, instance, value):
+        if getattr(instance, "_skip_validation", False):
+            super().__set__(instance, value)
+            return
         for field in self.get_fields():
             setattr(field, "_name", self._name)
             try:
